@@ -156,7 +156,7 @@ def run(ctx):
         if b"\0" in wd:
             continue
         for opt in (["-w", wd], ["-w", b"ok1", "-x", wd]):
-            rc, o, e = real.run(["-Q"] + opt, timeout=10)
+            rc, o, e = real.run(["-Q"] + opt, timeout=10, stdin=b"")
             nreal += 1
             msg = None
             if rc == -999:
